@@ -65,15 +65,18 @@ Definition well_retried_b (t : trace) : bool := forallb (fun r => stops_at_answe
 
 (* ---------- "every other device receives exactly the commands it would have received anyway" ---------- *)
 
-(* what a device receives: kinds and arguments of the requests addressed to it *)
-Definition proj (d : dev) (t : trace) : list (rkind * list Z) :=
-  map (fun r => (r_kind r, r_payload r)) (filter (fun r => r_dev r =? d) t).
+(* what a device receives: kind and arguments of every attempt addressed to it that got
+   through (an unanswered attempt did not reach it, or was not acted upon) *)
+Definition received_of (r : request) : list (rkind * list Z) :=
+  map (fun _ => (r_kind r, r_payload r)) (filter (fun b : bool => b) (r_outcomes r)).
+Definition received (d : dev) (t : trace) : list (rkind * list Z) :=
+  flat_map (fun r => if r_dev r =? d then received_of r else []) t.
 
 (* `faulty` is the observation under the fault plan, `free` the observation of the same
    script with every request answered (and, for the second reading, with the commands
    aimed at unknown or wrong-type targets deleted). *)
 Definition undisturbed (healthy : dev -> Prop) (faulty free : trace) : Prop :=
-  forall d, healthy d -> proj d faulty = proj d free.
+  forall d, healthy d -> received d faulty = received d free.
 
 Definition pair_eqb (a b : rkind * list Z) : bool :=
   rkind_eqb (fst a) (fst b) && (if list_eq_dec Z.eq_dec (snd a) (snd b) then true else false).
@@ -84,7 +87,7 @@ Fixpoint list_eqb {A} (f : A -> A -> bool) (a b : list A) : bool :=
   | _, _ => false
   end.
 Definition undisturbed_b (healthy : list dev) (faulty free : trace) : list dev :=
-  filter (fun d => negb (list_eqb pair_eqb (proj d faulty) (proj d free))) healthy.
+  filter (fun d => negb (list_eqb pair_eqb (received d faulty) (received d free))) healthy.
 
 (* ---------- "a script keeps running" ---------- *)
 
